@@ -25,10 +25,16 @@ func runC13Chain(seed uint64, n int, outDir string, replay string) {
 	r := h.NewRng(seed)
 	ans := func(s string) { o.Ans("impl", "%s", s) }
 	watch, _ := cwWatch()
+	fresh := cwFresh()
 	name := func(a common.Address) string {
 		for i, x := range watch {
 			if x.Equal(a) {
 				return fmt.Sprintf("w%d", i)
+			}
+		}
+		for i, x := range fresh {
+			if x.Equal(a) {
+				return fmt.Sprintf("f%d", i)
 			}
 		}
 		return ""
@@ -56,11 +62,20 @@ func runC13Chain(seed uint64, n int, outDir string, replay string) {
 			ans("ok")
 			o.Op("watch w0 w1 w2")
 			ans("ok")
+			o.Op("fresh f0 f1")
+			ans("ok")
+			// T3 for the fresh accounts: an independent replay of "first payout that can afford it pays the fee, once"
+			type facct struct {
+				live bool
+				bal  *big.Int
+			}
+			fac := []*facct{{bal: new(big.Int)}, {bal: new(big.Int)}}
 			paid := map[string]*big.Int{} // T3: independent ledger of what has matured
 			type pend struct {
 				who    string
 				amt    *big.Int
 				unlock uint64
+				depth  uint64
 			}
 			var pending []pend
 			for b := 0; b < 36; b++ {
@@ -85,13 +100,13 @@ func runC13Chain(seed uint64, n int, outDir string, replay string) {
 						amt := params.CalculateCoinbaseValueWithLockup(tx.Value(), tx.Data()[0], num+d)
 						o.Op("ev %s %s %d %d", who, amt, num, d)
 						ans("ok")
-						pending = append(pending, pend{who, amt, num + d})
+						pending = append(pending, pend{who, amt, num + d, d})
 						o.Count(fmt.Sprintf("reward:coinbase-lock%d", tx.Data()[0]))
 					case types.IsConversionTx(tx):
 						d := params.ConversionLockPeriod
 						o.Op("ev %s %s %d %d", who, tx.Value(), num, d)
 						ans("ok")
-						pending = append(pending, pend{who, tx.Value(), num + d})
+						pending = append(pending, pend{who, tx.Value(), num + d, d})
 						o.Count("reward:conversion")
 					}
 				}
@@ -121,7 +136,40 @@ func runC13Chain(seed uint64, n int, outDir string, replay string) {
 					}
 					_ = paid
 				}
-				o.Op("blk %d", num)
+				parent := w.node.hc.GetHeaderByHash(blk.ParentHash(common.ZONE_CTX))
+				fee := creationFee(parent)
+				for i, a := range fresh {
+					ia, _ := a.InternalAddress()
+					who, fa := fmt.Sprintf("f%d", i), fac[i]
+					for _, d := range params.LockupByteToBlockDepth {
+						for _, p := range pending {
+							if p.who != who || p.depth != d || p.unlock != num {
+								continue
+							}
+							switch {
+							case fa.live:
+								fa.bal.Add(fa.bal, p.amt)
+								o.Count("fresh:payout-to-existing-account")
+							case p.amt.Cmp(fee) >= 0:
+								fa.live = true
+								fa.bal.Add(fa.bal, new(big.Int).Sub(p.amt, fee))
+								o.Count("fresh:payout-creates-account")
+							default:
+								o.Count("fresh:payout-below-fee-dropped")
+							}
+						}
+					}
+					if fa.bal.Sign() == 0 {
+						fa.live = false
+					}
+					bal, live := stt.GetBalance(ia), stt.Exist(ia)
+					parts = append(parts, fmt.Sprintf("f%d=%s/%s", i, bal, b01(live)))
+					if bal.Cmp(fa.bal) != 0 || live != fa.live {
+						kind := "c13-new-account-fee-wrong"
+						o.Violate(kind, fmt.Sprintf("block %d: new reward-only address f%d holds %s (exists=%v); the matured payouts less one creation fee (%s) give %s (exists=%v)", num, i, bal, live, fee, fa.bal, fa.live))
+					}
+				}
+				o.Op("blk %d %s", num, fee)
 				ans(strings.Join(parts, " "))
 			}
 		}()
